@@ -112,7 +112,7 @@ func c15Configs() []c15Cfg {
 		for di := range c15Defines() {
 			skips := []string{ref.SkipPastLast, ref.SkipNextRow}
 			if vars["B"] {
-				skips = append(skips, "TO FIRST B", "TO LAST B")
+				skips = append(skips, "TO FIRST B", "TO LAST B", "TO B")
 			}
 			for _, s := range skips {
 				out = append(out, c15Cfg{pi, di, s})
@@ -325,7 +325,7 @@ func reverseInts(a []int) []int {
 func (c15) Describe(tier string) fw.Description {
 	return fw.Description{
 		Level: "model_checking",
-		Rule: "24 patterns over <= 4 variables (sequence, alternation, ?, *, +, {n}, {n,m}, groups, PERMUTE) x 4 DEFINE templates (constants, PREV, overlapping conditions, FIRST()/COUNT() aggregates; undefined variable always true) x every AFTER MATCH SKIP mode (PAST LAST ROW, TO NEXT ROW, TO FIRST B, TO LAST B) x all event streams of length 1..L over v in {1,2,3}; executed on the real engine (Emit, flush at Stop) and compared with a brute-force reference (all valid (start,end,labeling) by backtracking; leftmost start, longest end, SKIP rule, MATCH_NUMBER 1,2,..; FIRST(id)/LAST(id)); every 4th stream also with ALL ROWS PER MATCH (CLASSIFIER() must be one of the valid labelings), every 6th also with a second interleaved partition (each partition must report what it reports alone); non-trivial = at least one expected match",
+		Rule: "24 patterns over <= 4 variables (sequence, alternation, ?, *, +, {n}, {n,m}, groups, PERMUTE) x 4 DEFINE templates (constants, PREV, overlapping conditions, FIRST()/COUNT() aggregates; undefined variable always true) x every AFTER MATCH SKIP mode (PAST LAST ROW, TO NEXT ROW, TO FIRST B, TO LAST B, TO B) x all event streams of length 1..L over v in {1,2,3}; executed on the real engine (Emit, flush at Stop) and compared with a brute-force reference (all valid (start,end,labeling) by backtracking; leftmost start, longest end, SKIP rule, MATCH_NUMBER 1,2,..; FIRST(id)/LAST(id)); every 4th stream also with ALL ROWS PER MATCH (CLASSIFIER() must be one of the valid labelings), every 6th also with a second interleaved partition (each partition must report what it reports alone); non-trivial = at least one expected match",
 		Bounds:      map[string]any{"max_len": map[string]int{"quick": 5, "thorough": 7}, "values": []int{1, 2, 3}, "patterns": 24},
 		Assumptions: []string{"SKIP TO FIRST/LAST X cases where the target is ambiguous among valid labelings or equals the match start are skipped and counted", "WITHIN and the memory guards are not exercised (the property excludes the guarded regime)", "PREV navigates the match so far (property text)"},
 	}
